@@ -81,6 +81,32 @@ theorem normalizeT_table_sensitive (f : CaseFns) (hf : f.Ok) (c : TableCtx) (i :
     · simp [normalizeT, h]
     · simp [normalizeT, h, hf.lower_idem]
 
+/-! ## generated output names -/
+
+/-- **generated_name_is_fixpoint.**  The name `qualify_outputs` gives an unaliased, unnamed projection — `_col_<i>` passed
+    through the dialect's normalisation as an unquoted identifier, which is what the model's `Gen.colName` is instantiated
+    with — is a fixpoint of that normalisation, for every strategy and any idempotent case maps: re-normalising it (as
+    on the second pass, or when an enclosing query mentions it unquoted) gives the same name. -/
+theorem generated_name_is_fixpoint (f : CaseFns) (hf : f.Ok) (s : Strategy) (i : Nat) :
+    (normalize f s ⟨(normalize f s ⟨"_col_" ++ toString i, false⟩).name, false⟩).name
+      = (normalize f s ⟨"_col_" ++ toString i, false⟩).name := by
+  have h := normalize_idem f hf s ⟨"_col_" ++ toString i, false⟩
+  have hq : normalize f s ⟨"_col_" ++ toString i, false⟩
+      = ⟨(normalize f s ⟨"_col_" ++ toString i, false⟩).name, false⟩ := by
+    unfold normalize; split <;> rfl
+  rw [← hq, h]
+
+/-- every `_col_<i>` construction in `qualify_outputs` has its `normalize_identifier` call (counted by ast each run) -/
+theorem generated_col_name_sites_ok :
+    0 < Generated.C10.colNameSites.1 ∧ Generated.C10.colNameSites.1 ≤ Generated.C10.colNameSites.2 := by decide
+
+/-- the un-normalised lower-case name is NOT a fixpoint under an upper-casing strategy: it becomes `_COL_0`, so an
+    enclosing query's unquoted `_col_0` no longer matches it, and under CASE_INSENSITIVE_UPPERCASE the second pass rewrites it -/
+theorem unnormalised_generated_name_witness :
+    (normalize asciiFns .uppercase ⟨"_col_0", false⟩).name = "_COL_0"
+    ∧ (normalize asciiFns .caseInsensitiveUpper ⟨"_col_0", true⟩).name = "_COL_0"
+    ∧ (normalize asciiFns .lowercase ⟨"_col_0", false⟩).name = "_col_0" := by decide +kernel
+
 /-! ## the schema's memo of normalised names -/
 
 /-- **schema_name_memo_sound.**  `MappingSchema._normalize_name` with its memo answers exactly what the un-memoised
